@@ -97,6 +97,80 @@ Theorem C13_pointer_level (key : nat -> Z) n ops :
   end.
 Proof. exact (sim_run key ops (sys_init n) (p_init n) (sys_wf_init n) (R_init n)). Qed.
 
+(** foreach with a visitor that changes the lists ([FMove l d stop]): for the
+    element it is shown the visitor calls cstl_slist_pop_front(l), checks that
+    it got that element, and appends it to list d with cstl_slist_push_back.
+    cstl_slist_foreach tolerates this because it reads the successor of the
+    current node before calling the visitor.
+
+    Sequence model, from ANY well-formed state and any two distinct lists:
+    the call completes; with k = number of visits (all elements, or [stop] of
+    them) the traversed list keeps [skipn k], the other list becomes
+    [d ++ firstn k], the visit log is [firstn k], the result is [stop] or 0,
+    pop_front returned the visited element at every visit (second output 0);
+    tail = true last and count = length hold again for both lists. *)
+Theorem C13_fmove_refines (key : nat -> Z) s l d stop sl dl :
+  sys_wf s -> l <> d -> nth_error s l = Some sl -> nth_error s d = Some dl ->
+  exists s',
+    SListModel.step key false s (FMove l d stop) =
+      Done s' (fm_res stop (length (items sl)) :: 0%Z
+               :: zids (firstn (fm_count stop (length (items sl))) (items sl))) /\
+    sys_wf s' /\
+    abs s' = upd (upd (abs s) l (skipn (fm_count stop (length (items sl))) (items sl))) d
+                 (items dl ++ firstn (fm_count stop (length (items sl))) (items sl)).
+Proof. exact (fmove_step key s l d stop sl dl). Qed.
+
+(** Pointer level, one visit (the reason for the order of statements in
+    cstl_slist_foreach): with [e] the first element of l, pop_front(l) hands
+    back [e], push_back(d, e) links it behind d's tail, the states stay
+    related, and the link [c->n] that the loop saved BEFORE the visit is the
+    first link of l afterwards. *)
+Theorem C13_fmove_saved_successor a p l d sl dl e r sl1 dl1 :
+  sys_wf a -> R a p -> l <> d ->
+  nth_error a l = Some sl -> nth_error a d = Some dl -> items sl = e :: r ->
+  pop_front sl = Ok (sl1, Some e) -> push_back dl e = Ok dl1 ->
+  exists ol p1 od,
+    nth_error (objs p) l = Some ol /\
+    p_pop_front p l ol = Ok (p1, Some (Nd e)) /\
+    nth_error (objs p1) d = Some od /\
+    sys_wf (upd (upd a l sl1) d dl1) /\
+    R (upd (upd a l sl1) d dl1) (p_insert_after p1 d od (lt od) e) /\
+    nx (p_insert_after p1 d od (lt od) e) (Hd l) = nx p (Nd e) /\
+    items sl1 = r.
+Proof. exact (sim_fmove_visit (fun _ => 0%Z) a p l d sl dl e r sl1 dl1). Qed.
+
+(** Pointer level, whole call: the loop as coded (successor saved before the
+    visitor; visitor = the pointer-level pop_front and push_back acting on the
+    heap), from any pointer state representing well-formed sequences,
+    completes with the reference result above and represents the reference
+    sequences afterwards.  ([C13_pointer_level] covers [FMove] inside
+    arbitrary histories as well, since it quantifies over all operations.) *)
+Theorem C13_fmove_pointer_level (key : nat -> Z) a p l d stop sl dl :
+  sys_wf a -> R a p -> l <> d -> nth_error a l = Some sl -> nth_error a d = Some dl ->
+  exists a' p',
+    p_step key p (FMove l d stop) =
+      Done p' (fm_res stop (length (items sl)) :: 0%Z
+               :: zids (firstn (fm_count stop (length (items sl))) (items sl))) /\
+    R a' p' /\ sys_wf a' /\
+    abs a' = upd (upd (abs a) l (skipn (fm_count stop (length (items sl))) (items sl))) d
+                 (items dl ++ firstn (fm_count stop (length (items sl))) (items sl)).
+Proof. exact (fmove_ptr_step key a p l d stop sl dl). Qed.
+
+(** Non-vacuity of the three theorems above: a stopping and a complete moving
+    traversal, run on both models. *)
+Example C13_example_fmove :
+  let key := fun _ : nat => 0%Z in
+  let ops := [PushBack 0 0; PushBack 0 1; PushBack 0 2; PushBack 0 3; PushBack 1 4;
+              FMove 0 1 3; FMove 1 0 0] in
+  match run (SListModel.step key false) (sys_init 2) ops, run (p_step key) (p_init 2) ops with
+  | (Done s _, outs), (Done p _, outs') =>
+    abs s = [[3; 4; 0; 1; 2]; []] /\ outs = outs' /\
+    nth 5 outs [] = [3; 0; 0; 1; 2]%Z /\ nth 6 outs [] = [0; 0; 4; 0; 1; 2]%Z /\
+    p_dump p 0 = dump (nth 0 s sl_init) /\ p_dump p 1 = dump (nth 1 s sl_init)
+  | _, _ => False
+  end.
+Proof. vm_compute. repeat split; reflexivity. Qed.
+
 (** Non-vacuity: a concrete history (3 lists, keys 1 0 1 0 2) reaches a
     non-trivial well-formed state through every kind of operation. *)
 Example C13_example_run :
@@ -116,3 +190,6 @@ Print Assumptions C13_push_back_appends.
 Print Assumptions C13_pop_front_empty.
 Print Assumptions C13_run_safe.
 Print Assumptions C13_pointer_level.
+Print Assumptions C13_fmove_refines.
+Print Assumptions C13_fmove_saved_successor.
+Print Assumptions C13_fmove_pointer_level.
